@@ -28,7 +28,7 @@ import numpy as np
 
 from .. import gen, importer, probes
 from ..core import Check, jdigest, result_template, scratch_dir
-from ..oracles import geom
+from ..oracles import geom, visibility
 from ..run import cleanup, wrap_method
 from . import sched
 from .common import drive, generic_shrinks, over, raised_in_harness, time_info, variant
@@ -47,6 +47,13 @@ def install_update_monitor():
 
     wrap_method(UnscentedKalmanFilter, "calcMeasurementMean", after=after_mean)
 
+    def after_sigma_meas(self, tok, res, observations, *a, **k):
+        # what each stacked observation says about itself (sensor position, epoch, what it measures) next to the predicted sigma measurements
+        probes.rec("sigma_meas", target=self.target_id, sigma_x=np.array(self.sigma_points, dtype=float).copy(), sigma_y=np.array(res, dtype=float).copy(),
+                   obs=[{"sensor_eci": np.array(o.sensor_eci, dtype=float).copy(), "jd": float(o.julian_date), "labels": list(o.measurement.labels), "sensor": int(o.sensor_id)} for o in observations])
+
+    wrap_method(UnscentedKalmanFilter, "_calcMeasurementSigmaPoints", after=after_sigma_meas)
+
     def after_update(self, tok, res, observations, *a, **k):
         if not observations:
             return
@@ -64,7 +71,7 @@ def install_update_monitor():
     wrap_method(UnscentedKalmanFilter, "update", after=after_update)
 
 
-def judge_updates(viol, cnt, res, cond=None):
+def judge_updates(viol, cnt, res, cond=None, ecef_at=None):
     """Judge every UKF update of the run just finished; ``cond`` collects, per (step, target), the
     conditioning of the innovation covariance and the size of the update (for the posterior tolerances)."""
     max_inn = max_mean = 0.0
@@ -96,6 +103,33 @@ def judge_updates(viol, cnt, res, cond=None):
                              "detail": f"step {r['step']} target {r['target']} component {i}: innovation {inn!r}, measured {float(r['true_y'][i])!r} - predicted {float(r['pred_y'][i])!r} wraps to {ref!r}"})
             if abs(abs(float(r["true_y"][i]) - float(r["pred_y"][i])) - 2 * math.pi) < 0.5 or abs(float(r["true_y"][i]) - float(r["pred_y"][i])) > math.pi:
                 cnt["innovations_across_a_seam"] = cnt.get("innovations_across_a_seam", 0) + 1
+    # every predicted sigma measurement comes from the measurement model evaluated with *its* observation's sensor position and epoch (rsim's own geometry)
+    if ecef_at is not None:
+        max_h = 0.0
+        for r in probes.of_kind("sigma_meas"):
+            row = 0
+            bad = None
+            for ob in r["obs"]:
+                when = ecef_at["when"](ob["jd"])
+                s_ecef = ecef_at["ecef"](ob["sensor_eci"], when)
+                for j in range(r["sigma_x"].shape[1]):
+                    az, el, rng_km, rr, _rho = visibility.topocentric(s_ecef, ecef_at["ecef"](r["sigma_x"][:, j], when))
+                    ref_m = {"azimuth_rad": az, "elevation_rad": el, "range_km": rng_km, "range_rate_km_p_sec": rr}
+                    for li, lab in enumerate(ob["labels"]):
+                        got_v = float(r["sigma_y"][row + li, j])
+                        d = abs(geom.wrap_pi(got_v - ref_m[lab])) if lab.endswith("_rad") else abs(got_v - ref_m[lab])
+                        lim = {"azimuth_rad": 1e-9, "elevation_rad": 1e-9, "range_km": 1e-6, "range_rate_km_p_sec": 1e-9}[lab]
+                        if abs(el) > math.radians(89.99) and lab == "azimuth_rad":
+                            continue
+                        max_h = max(max_h, d / lim)
+                        if over(d, lim) and bad is None:
+                            bad = f"observation of sensor {ob['sensor']} ({lab}, sigma point {j}): predicted {got_v!r}, measurement model with that observation's own sensor position and epoch gives {ref_m[lab]!r}"
+                row += len(ob["labels"])
+            cnt["predicted_sigma_measurements_recomputed"] = cnt.get("predicted_sigma_measurements_recomputed", 0) + 1
+            if bad:
+                viol.append({"clause": "predicted-measurement-not-from-its-observation", "key": "sensor-frame", "detail": f"step {r['step']} target {r['target']}: {bad}"})
+                break
+        res["tolerances"]["predicted_sigma_measurement_vs_model(units of 1e-9 rad / 1e-6 km)"] = [max(res["tolerances"].get("predicted_sigma_measurement_vs_model(units of 1e-9 rad / 1e-6 km)", [0, 0])[0], max_h), 1.0]
     # the sigma-point residuals behind the innovation / cross covariances: wrapped differences to the predicted mean, whichever side of a seam they fall on
     means = probes.of_kind("meas_mean")
     max_res = max_cvr = 0.0
@@ -255,18 +289,27 @@ class C16(Check):
                                    elevation_range=[0.5, 89.9999])
             sensors.append(gen.ground_sensor(90001 + i, lat + rng.uniform(-0.02, 0.02), lon + rng.uniform(-0.02, 0.02), alt, blk))
         targets = []
+        low = False
         site = {"latitude": lat, "longitude": lon, "altitude": alt}
         for j in range(rng.randrange(1, 4)):
             az = rng.choice([0.0, 0.0, 180.0, 360.0 - 1e-4, 1e-4, 180.0 + 1e-4, rng.uniform(0, 360)]) + rng.uniform(-2e-3, 2e-3)
             k = rng.randrange(0, nsteps + 1)
             import datetime as dt
 
-            st = gen.place_over_site(rng, site, start + dt.timedelta(seconds=k * step), k * step, az % 360.0, rng.uniform(25, 80), rng.uniform(36000, 40000), "corotate")
+            if rng.random() < 0.3:
+                # a low target seen from the first sensor's own position: with kilometres of prior uncertainty the sigma points of the predicted azimuth
+                # spread over ~1e-5..1e-3 rad even for alpha = 1e-3, enough to straddle the seam the target was placed on
+                s0 = sensors[0]["state"]
+                st = gen.place_over_site(rng, {"latitude": s0["latitude"], "longitude": s0["longitude"], "altitude": s0["altitude"]}, start + dt.timedelta(seconds=k * step), k * step,
+                                         (az if rng.random() < 0.5 else rng.choice([0.0, 180.0]) + rng.uniform(-1e-4, 1e-4)) % 360.0, rng.uniform(25, 80), rng.uniform(800, 3000), rng.choice(["polar", "any"]))
+                low = True
+            else:
+                st = gen.place_over_site(rng, site, start + dt.timedelta(seconds=k * step), k * step, az % 360.0, rng.uniform(25, 80), rng.uniform(36000, 40000), "corotate")
             targets.append(gen.eci_target(10001 + j, st[:3], st[3:]))
-        big = rng.random() < 0.5
+        big = rng.random() < 0.5 or low
         cfg = gen.base_config(start, step, nsteps, [gen.engine_block(1, sensors, targets, dec, {"name": "SimpleSummationReward", "metrics": [{"name": rng.choice(["TimeSinceObservation", "Range", "ShannonInformation"])}]})],
                               model="two_body", seed=rng.randrange(1, 2**31), background=True, estimation=gen.estimation_block(dynamics="two_body", alpha=rng.choice([0.001, 0.05, 0.5, 0.99]), resample=rng.random() < 0.5),
-                              noise={"init_position_std_km": rng.choice([1.0, 5.0]) if big else 1e-3, "init_velocity_std_km_p_sec": 1e-4 if big else 1e-6,
+                              noise={"init_position_std_km": rng.choice([1.0, 5.0, 20.0]) if big else 1e-3, "init_velocity_std_km_p_sec": 1e-4 if big else 1e-6,
                                      "filter_noise_type": "continuous_white_noise", "filter_noise_magnitude": 3e-14, "random_seed": rng.randrange(1, 2**31)})
         if big:
             for s in sensors:
@@ -298,7 +341,7 @@ class C16(Check):
         if case["kind"] == "order":
             base_upd = {}
             base = sched.observe(case)
-            judge_updates(viol, cnt, res, base_upd)
+            judge_updates(viol, cnt, res, base_upd, ecef_at=self._ecef_ctx(case))
             if base["error"]:
                 if base["numerical"]:
                     res["skipped"] = "aborted_numerical"
@@ -315,7 +358,7 @@ class C16(Check):
                 c2["schedule"] = desc
                 alt = sched.observe(c2)
                 alt_upd = {}
-                judge_updates(viol, cnt, res, alt_upd)
+                judge_updates(viol, cnt, res, alt_upd, ecef_at=self._ecef_ctx(case))
                 inter.append(jdigest(alt["batches"]))
                 if alt["error"] or base["error"]:
                     continue
@@ -338,7 +381,7 @@ class C16(Check):
             c1 = dict(case)
             c1["_dir"] = os.path.join(base_dir, "p1")
             ctx1 = drive(c1)
-            judge_updates(viol, cnt, res)
+            judge_updates(viol, cnt, res, ecef_at=self._ecef_ctx(case))
             if ctx1.error is not None:
                 if raised_in_harness(ctx1.error):
                     raise ctx1.error
@@ -362,7 +405,7 @@ class C16(Check):
                 c2["importer_db_url"] = f"sqlite:///{imp}"
                 rec = sched.observe(c2)
                 upd = {}
-                judge_updates(viol, cnt, res, upd)
+                judge_updates(viol, cnt, res, upd, ecef_at=self._ecef_ctx(case))
                 keys = [(o[0], int(o[7] * 1_000_000), int(o[8] * 1_000_000), int(o[9] * 1_000_000), o[2]) for o in info["observations"]]
                 if len(keys) != len(set(keys)):
                     # the loader drops "duplicate" observations (same sensor position, target, epoch) keeping the first row:
@@ -391,6 +434,18 @@ class C16(Check):
         finally:
             shutil.rmtree(base_dir, ignore_errors=True)
         return res
+
+    @staticmethod
+    def _ecef_ctx(case):
+        import datetime as _dt
+
+        from resonaate.physics.time.stardate import datetimeToJulianDate
+        from resonaate.physics.transforms.methods import eci2ecef
+
+        S, step, _out, _n = time_info(case)
+        jd0 = float(datetimeToJulianDate(S))
+        return {"when": lambda jd: S + _dt.timedelta(seconds=round((jd - jd0) * 86400.0 / step) * step),
+                "ecef": lambda x, when: eci2ecef(np.asarray(x, dtype=float), when)}
 
     def shrink_candidates(self, case, violation):
         if case["kind"] == "order" and violation.get("schedule") and case.get("alts") != [violation["schedule"]]:
